@@ -521,6 +521,10 @@ func (fd *Client) BatchWriteItem(input *dynamodb.BatchWriteItemInput) (*dynamodb
 		return &dynamodb.BatchWriteItemOutput{}, err
 	}
 
+	if err := checkBatchWriteTargets(fd, input); err != nil {
+		return &dynamodb.BatchWriteItemOutput{}, err
+	}
+
 	unprocessed := map[string][]*dynamodb.WriteRequest{}
 
 	for table, reqs := range input.RequestItems {
@@ -573,6 +577,31 @@ func validateBatchWriteItemInput(input *dynamodb.BatchWriteItemInput) error {
 
 	if count > batchRequestsLimit {
 		return awserr.New("ValidationException", "Too many items requested for the BatchWriteItem call", nil)
+	}
+
+	return nil
+}
+
+// checkBatchWriteTargets makes sure that every request addresses an existing
+// table with a well formed key, so that a rejected batch writes nothing
+func checkBatchWriteTargets(fd *Client, input *dynamodb.BatchWriteItemInput) error {
+	for tableName, reqs := range input.RequestItems {
+		table, err := fd.getTable(tableName)
+		if err != nil {
+			return err
+		}
+
+		for _, req := range reqs {
+			if req.PutRequest != nil {
+				err = table.ValidateWriteKeys(mapAttributeValueToTypes(req.PutRequest.Item), true)
+			} else if req.DeleteRequest != nil {
+				err = table.ValidateWriteKeys(mapAttributeValueToTypes(req.DeleteRequest.Key), false)
+			}
+
+			if err != nil {
+				return awserr.New("ValidationException", err.Error(), nil)
+			}
+		}
 	}
 
 	return nil
